@@ -426,3 +426,8 @@ def run(S):
     rule_bump(S)
     from checks import C05_cb
     C05_cb.rule_cb(S)
+    # mechanisms this property rests on (checks/shared.py)
+    from checks import shared
+    shared.version_word(S)
+    shared.descent(S)
+    shared.writers_dirty(S)
